@@ -347,12 +347,11 @@ to that returned by repr() in Python 2.
 `
 
 func builtin_ascii(self, o py.Object) (py.Object, error) {
-	reprObj, err := py.Repr(o)
+	repr, err := py.ReprAsString(o)
 	if err != nil {
 		return nil, err
 	}
-	repr := reprObj.(py.String)
-	out := py.StringEscape(repr, true)
+	out := py.StringEscape(py.String(repr), true)
 	return py.String(out), err
 }
 
